@@ -10,6 +10,10 @@ claimed = {
  "C04": ("exploration", "Seeded search over schedules of the full client/server stack (K callers x C connections x objects, raw-frame peer sending every message type), with callee-side execution log and per-call unique tokens; each reply is attributed to exactly one execution.", "4/C04", TECH),
  "C08": ("fault_enumeration", "Peer dies mid-encoding: for each sampled valid encoding (8 kinds of decoder), EVERY cut position x 4 end-of-stream manifestations x 2 fragmentations must be refused. Exhaustive over cut positions per encoding; encodings are sampled.", "4/C08", TECH_STREAM),
  "C10": ("exploration", "N concurrent senders on one endpoint over the simulated connection (per-call-atomic writes, arbitrary interleaving between calls, arbitrary read fragmentation and window sizes); wire tap parsed by the reference codec + per-handler subsequence oracle.", "4/C10", TECH),
+ "C11": ("fault_enumeration", "Call / concurrent calls / subscribe scenarios over the real client and server; runs are grouped in blocks sharing scenario, configuration and decision stream, and inside a block a fault (reset, close by either side, partial write then error, node crash) is placed at EVERY I/O operation index of the client connection; liveness = every call returned at quiescence, later calls fail, subscription channels closed, disconnect callbacks registered before the fault ran exactly once.", "4/C11", TECH),
+ "C13": ("exploration", "Subscribe / cancel / re-subscribe / emit histories by several subscribers (shared and own connections and proxies) and one emitter under seeded schedules; per-subscription oracle bounded by acknowledgement and cancel request (no miss, no duplicate, order, no foreign signal, channel closed) plus a wire tap for 'no event after the unregister acknowledgement'; violation classes name their cause, three of them are known findings.", "4/C13", TECH),
+ "C14": ("exploration", "Concurrent get / set (valid, rejected, wrongly typed, by name and by id) / service-side update histories by several clients; porcupine linearizability against a typed-register model, declared-type check on raw reads, exactly-one-event-per-accepted-write accounting per subscriber.", "4/C14", TECH),
+ "C16": ("exploration", "Add / remove / remote terminate / call histories on one service with concurrent actors; reference model of live objects: identifier uniqueness, termination hook exactly once, subscribers told, calls invoked after a removal returned are refused without reaching the object, live objects keep answering.", "4/C16", TECH),
  "C17": ("exploration", "MakeHandler / RemoveHandler / self-removing filters / traffic / Close / peer close raced on one real endpoint under statement-granularity preemption; harness-owned closers and queues count closes; captured panics and pending operations at quiescence are violations.", "4/C17", TECH),
 }
 na_pure = {
